@@ -8,6 +8,10 @@ Tie: `TableList.formOutT` is run by the driver (`controls.model`) on every gener
 (instance name tree with template marks, bind nodesets, body refs) must equal the implementation's; the
 oracle (closure of every nodeset/ref incl. setvalue/action refs, sibling uniqueness, one bind per node) is
 evaluated by the Lean function `resolves` on the implementation's own instance and refs (op `form.closed`).
+Row-level `flat` groups: Pyxv/Model/FormFlat.lean + FormFlatInst.lean, theorems in Pyxv/Proofs/C02Flat.lean
+(`refs_resolve_flat`, `siblings_unique_flat`, `flat_clash_rejected`, `bindPathsFL_eq_lift`, …) and C02FlatInst.lean
+(`instKidsF_eq_lift`, `flat_instance_walk`, `refs_resolve_flat_walk`, `walkOut_eq`); tie: ops `flat.model` / `flat.walk`
+on the `flat_form` stream (accept/reject, instance tree, bind nodesets, body refs).
 """
 
 from __future__ import annotations
@@ -22,7 +26,9 @@ PROP = "C02"
 RULE = (
     "generated forms (1-14 rows quick / 1-30 thorough, nesting depth up to 5 / 8, groups, repeats with "
     "count helpers, selects with or_other, name pool with prefix-related / case-variant / helper-like names, "
-    "dynamic defaults, triggers); distinct by canonical hash of the form; non-trivial = accepted by the "
+    "dynamic defaults, triggers); plus sheets with row-level flat groups at any depth (nested in each other, in plain "
+    "groups, beside repeats; small name pool so names clash only through a flat group) compared with the flat-aware "
+    "model; distinct by canonical hash of the form; non-trivial = accepted by the "
     "converter and containing at least one group or repeat"
 )
 
@@ -175,6 +181,125 @@ def include_case(ctx, rng):
     include_run(ctx, {"survey": main_rows, "choices": choices}, inc)
 
 
+def flat_model_call(ctx, form, root="data", op="flat.model"):
+    """`FormFlat.formOutFlat` (op `flat.model`) on the rows as they are, `flat` cells included."""
+    rows = [formobs.canon_cells(x) for x in form["survey"]]
+    lists = sorted({x.get("list_name", "") for x in form.get("choices", [])})
+    settings = formobs.canon_cells(form["settings"][0]) if form.get("settings") else []
+    for k, v in settings:
+        if k == "name":
+            root = v
+    return ctx.driver.call(op, rows=rows, lists=lists, settings=settings, root=root)
+
+
+def flat_case(ctx, form):
+    """Correspondence of the flat-aware model (`Pyxv.FormFlat`, theorems `refs_resolve_flat`,
+    `siblings_unique_flat`) with the implementation: accept / reject, instance name tree, bind nodesets, body
+    refs; plus the closure / uniqueness oracle on the implementation's output."""
+    r = impl.run(form)
+    m = flat_model_call(ctx, form)
+    ctx.count(f"flat-impl:{r['class']}/model:{m['outcome']}")
+    if m["outcome"] == "unsupported":
+        ctx.count("flat-unsupported: " + m.get("why", "?"))
+    if r["class"] == "internal":
+        ctx.fail(Failure("flat-crash", f"{r.get('exc')} at {r.get('site')}: {r.get('msg', '')[:200]}", {"form": form}))
+    elif r["ok"]:
+        obs = formobs.observe(r["xform"])
+        oracle(ctx, form, obs)
+        if m["outcome"] == "ok":
+            if not m["closed"]:
+                ctx.mismatch("flat: model output not closed", form, "-", m)
+            if not formobs.nt_eq(obs["instance"], m["instance"]):
+                ctx.mismatch("flat: instance tree", form, formobs.nt_str(obs["instance"]), formobs.nt_str(m["instance"]))
+            if sorted(obs["binds"]) != sorted(m["binds"]):
+                ctx.mismatch("flat: bind nodesets", form, obs["binds"], m["binds"])
+            if obs["body"] != m["body"]:
+                ctx.mismatch("flat: body refs", form, obs["body"], m["body"])
+        elif m["outcome"] == "unsupported" and "repeat" in m.get("why", ""):
+            # outside the guard of the theorems (flat x repeat, the open finding): the code-shaped instance walk
+            # (`instKidsF` / `arrF` / `tmplKidsF`) is still compared with the implementation's instance
+            w = flat_model_call(ctx, form, op="flat.walk")
+            ctx.count("flat-walk-unguarded:" + w["outcome"])
+            if w["outcome"] == "ok" and not formobs.nt_eq(obs["instance"], w["instance"]):
+                ctx.mismatch("flat: unguarded instance walk", form, formobs.nt_str(obs["instance"]), formobs.nt_str(w["instance"]))
+        elif m["outcome"] == "error":
+            ctx.mismatch("flat: model rejects, implementation accepts", form, "ok", m["err"])
+            if "dupSibling" in m["err"] or "dupSection" in m["err"]:
+                ctx.fail(Failure("accepted-clash", f"a sheet with names clashing through a flat group was converted: {m['err']}",
+                                 {"form": form}))
+    elif r["class"] == "pyxform" and m["outcome"] == "ok":
+        ctx.mismatch("flat: implementation rejects, model accepts", form, r["msg"][:300], "ok")
+    ctx.record({"form": form}, r["ok"] and m["outcome"] == "ok")
+
+
+FLAT_Q = [("text", {}), ("integer", {}), ("note", {}), ("calculate", {"calculation": "1 + 1"}), ("select_one yn", {}),
+          ("decimal", {"required": "yes"}), ("text", {"relevant": "1 = 1"}), ("select_multiple yn", {})]
+
+
+def flat_form(rng, big=False):
+    """A sheet with flat groups at any depth: nested in each other, in plain groups, beside (and, rarely, inside or
+    around) repeats; a small name pool so that names clash — or not — only through a flat group."""
+    pool = ["a", "b", "c", "A", "g", "f", "meta", "x_1"]
+    uniq = [0]
+    p_rep_mix = 0.15
+    rows = []
+
+    def name(kind):
+        if rng.random() < (0.55 if kind == "q" else 0.2):
+            return rng.choice(pool)
+        uniq[0] += 1
+        return f"{kind}{uniq[0]}"
+
+    def block(depth, budget, in_flat, in_rep):
+        n = rng.randint(1, 4)
+        for _ in range(n):
+            if budget[0] <= 0:
+                return
+            budget[0] -= 1
+            x = rng.random()
+            if depth < (7 if big else 5) and x < 0.42:
+                sec = "group"
+                flat = False
+                if rng.random() < 0.25:
+                    sec = "repeat"
+                    if in_flat and rng.random() > p_rep_mix:
+                        sec = "group"
+                if sec == "group" and rng.random() < 0.55:
+                    flat = not in_rep or rng.random() < p_rep_mix
+                row = {"type": f"begin {sec}", "name": name("s"), "label": "S"}
+                if rng.random() < 0.15:
+                    row.pop("label")
+                if rng.random() < 0.2:
+                    row["relevant"] = "1 = 1"
+                if flat:
+                    row["flat"] = rng.choice(["yes", "true", "1", "no", "x"])
+                rows.append(row)
+                mark = len(rows)
+                block(depth + 1, budget, in_flat or flat, in_rep or sec == "repeat")
+                if len(rows) == mark and rng.random() < 0.93:
+                    # an empty section is rejected (Section.validate); keep that case rare
+                    rows.append({"type": "text", "name": name("q"), "label": "Q"})
+                rows.append({"type": f"end {sec}"})
+            else:
+                t, extra = rng.choice(FLAT_Q)
+                row = {"type": t, "name": name("q"), "label": "Q"}
+                row.update(extra)
+                if t == "calculate":
+                    row.pop("label")
+                rows.append(row)
+
+    block(0, [rng.randint(2, 26 if big else 14)], False, False)
+    form = {"survey": rows, "choices": [{"list_name": "yn", "name": "y", "label": "Yes"}, {"list_name": "yn", "name": "n", "label": "No"}]}
+    x = rng.random()
+    if x < 0.2:
+        form["settings"] = [{"omit_instanceID": "yes"}]
+    elif x < 0.3:
+        form["settings"] = [{"instance_name": "concat('a', 'b')"}]
+    elif x < 0.4:
+        form["settings"] = [{"name": rng.choice(["root", "g", "f"])}]
+    return form
+
+
 def explore(ctx, factor, bs):
     rng = ctx.rng
     form_case(ctx, FLAT_IN_REPEAT)  # directed case of the open finding C02-flat-group-in-repeat
@@ -182,6 +307,9 @@ def explore(ctx, factor, bs):
     c02_history.explore(ctx, oracle, lambda r: formcommon.structure_form(r, tier_big=not ctx.quick()), factor)
     for _ in range(ctx.pick(40, 600) * factor):
         include_case(ctx, rng)
+    # row-level `flat` groups: correspondence with the flat-aware model (`flat.model`) + oracle
+    for _ in range(ctx.pick(400, 5000) * factor):
+        flat_case(ctx, flat_form(rng, big=not ctx.quick()))
     n = ctx.pick(1200, 30000) * factor
     for i in range(n):
         big = not ctx.quick()
@@ -219,6 +347,8 @@ def replay(ctx, payload, bs):
         include_run(ctx, form["include"]["main"], form["include"]["address"])
     else:
         form_case(ctx, form)
+        if any("flat" in x for x in form.get("survey", [])):
+            flat_case(ctx, form)
     return (len(ctx.failures), len(ctx.mismatches)) == before
 
 
